@@ -10,12 +10,12 @@ import PxModel.Build
     * `content-encoding` present and equal to `gzip` (exact bytes, no case folding,
       no stripping beyond what the parser did) → body is compressed;
       present with any other value → the header is deleted;
-    * chunked message → `self.body` becomes `to_chunks(body)` (default chunk size)
-      and `content-length` is deleted; otherwise `Content-Length: len(body)` is set;
+    * chunked message → `content-length` is deleted and `self.body` keeps the DECODED (possibly
+      compressed) body: `build()` / `build_response()` apply the chunked coding
+      (fix 4312341; before it the stream was stored encoded and encoded again on rebuild, D23);
+      otherwise `Content-Length: len(body)` is set;
     * `Content-Type` is set last.
-  NOTE (finding D23): for a chunked message `self.body` now holds the *encoded*
-  stream while `_is_chunked_encoded` stays true, so `build()` / `build_response()`
-  chunk-encode it a second time.  The model reproduces this.
+  `bufSize` is no longer used (kept so that callers need not change).
 -/
 namespace Px.UpdateBody
 
@@ -25,7 +25,7 @@ inductive Err | valueError
   deriving DecidableEq, Repr
 
 /-- `HttpParser.update_body(body, content_type)` -/
-def updateBody (gz : Bytes → Bytes) (bufSize : Nat) (p : Parser) (body ct : Bytes) : Except Err Parser :=
+def updateBody (gz : Bytes → Bytes) (_bufSize : Nat) (p : Parser) (body ct : Bytes) : Except Err Parser :=
   -- content-encoding
   let (p, body) : Parser × Bytes :=
     if hasHeader p (b "content-encoding") then
@@ -35,10 +35,7 @@ def updateBody (gz : Bytes → Bytes) (bufSize : Nat) (p : Parser) (body ct : By
     else (p, body)
   -- transfer-encoding
   let r : Except Err (Parser × Bytes) :=
-    if p.isChunked then
-      match Px.Chunk.toChunks body bufSize with
-      | .ok x => .ok (delHeader p (b "content-length"), x)
-      | .error _ => .error .valueError
+    if p.isChunked then .ok (delHeader p (b "content-length"), body)
     else .ok (addHeader p (b "Content-Length") (natToDec body.length), body)
   match r with
   | .error e => .error e
